@@ -210,6 +210,15 @@ class Validator:
         See https://github.com/Julian/jsonschema/issues/119
         """
 
+        index = None
+
+        if path and isinstance(path[-1], int):
+            if not isinstance(dictutils.findkey(rootdict, *path), dict):
+                # the error is on an item in a list of values e.g. the second number
+                # of SIZE, or one of several PROCESSING keywords - report the keyword
+                while isinstance(path[-1], int):
+                    index = path.pop()
+
         if not path:
             # error applies to the root type
             d = rootdict
@@ -243,6 +252,9 @@ class Validator:
                 pd = d["__position__"]
             else:
                 pd = d["__position__"][key]
+                if isinstance(pd, list):
+                    # repeated keywords have a position for each occurrence
+                    pd = pd[index] if index is not None and index < len(pd) else pd[0]
 
             error_dict["line"] = pd.get("line")
             error_dict["column"] = pd.get("column")
